@@ -846,6 +846,11 @@ where
         let jobs_done_future = server.wait_all();
         pin_mut!(jobs_done_future);
         wait_for(jobs_done_future, job_futures.as_mut()).await?;
+        // Every child process has exited, but the futures that record the jobs'
+        // results (and then drop the targets' locks) may not have been polled to
+        // completion yet.  Finish them now: blocking on someone else's lock below
+        // while still holding ours lets two redo processes wait for each other.
+        while job_futures.as_mut().next().await.is_some() {}
         let errored = {
             let r = result.replace(Ok(()));
             let errored = r.is_err();
